@@ -8,7 +8,7 @@ CONSTANTS S,           \* coordinate unit (48: halves down to 1/16 and thirds ar
           M,           \* sample refinement
           NS,          \* samples per direction
           WT,          \* the weight "one"
-          Metrics,     \* subset of {"cub", "tet", "ort", "hex"}
+          Metrics,     \* subset of {"cub", "tet", "ort", "hex", "hex120"}
           TVq, TSq,    \* thresholds in eighths of the largest starting volume / squared edge (9 = nothing to split)
           EvenThresholds, \* FALSE: thresholds never equal an attained value (odd numerators); TRUE: they do (even numerators)
           BreakOnEqual,   \* FALSE: the loops as written (`break` only if max < threshold); TRUE: `break` if max <= threshold
@@ -64,7 +64,7 @@ Positive      == PositiveVolumes(kl)
 VolumeKept    == SumSeq(TVols(kl)) = CellVol6(metric)
 WeightKept    == SumSeq(TFacs(kl)) = WT
 WeightByVolume == WeightPropVolume(kl, WT)
-Tiling        == IF metric = "hex" THEN NoOverlap(kl, Smp, M) ELSE TilesCell(kl, Smp, M)
+Tiling        == IF IsTrigonal(metric) THEN NoOverlap(kl, Smp, M) ELSE TilesCell(kl, Smp, M)
 SplitsOK      == \A h \in 1..Len(hist) : SplitOK(hist[h].p, hist[h].ch, Smp, M)
 ThresholdsMet == phase = "done" => (\A i \in 1..Len(kl) : 2 * Vol6(kl[i].v) <= tv2 /\ 2 * Size2(kl[i].v, Gram(metric)) <= ts2)
 (* an iteration that is entered splits at least one tetrahedron: otherwise the list never changes and the loop never ends *)
